@@ -3,7 +3,7 @@
 # Apply a seeded change to /repo, run the quick checks of the given properties, undo the change.
 # Prints one line per check: "<ID> exit=<code>" (1 = violation detected).
 set -u
-patch="$1"; shift
+patch=$(realpath "$1"); shift
 cd /verif
 git -C /repo diff --quiet || { echo "/repo has uncommitted changes; refusing"; exit 2; }
 git -C /repo apply "$patch" || { echo "patch does not apply"; exit 2; }
